@@ -2124,4 +2124,119 @@ theorem diag_undefined (ds : List Node) (h : ∀ n ∈ ds, n = none) : diagOf ds
     simp only [List.all_eq_true, beq_iff_eq]; exact h
   rw [if_pos this]
 
+/-! ## Part 14 — scope kinds: parameters and `global` / `nonlocal` names -/
+
+mutual
+/-- observations are "generate or pass" too: what is current at a use is either the definition the path started
+with, on a path every start can take, or a definition the path itself made -/
+theorem obsS_genPass (x : Nat) (s : Stmt) (u : Nat) : GenPass (fun w n => obsS x s w u n) := by
+  intro w n h
+  cases s with
+  | use v u' =>
+    simp only [obsS] at h ⊢
+    exact Or.inl ⟨h.2.2, fun w' => ⟨h.1, h.2.1, trivial⟩⟩
+  | ite t e =>
+    simp only [obsS] at h ⊢
+    exact genPass_or (obsB_genPass x t u) (obsB_genPass x e u) w n h
+  | loop iw a b e =>
+    simp only [obsS] at h ⊢
+    obtain ⟨k, m, hk, ho⟩ := h
+    have hR := genPass_or (runB_genPass x b false) (runB_genPass x b true)
+    rcases iter_genPass hR k w m hk with ⟨e', hp⟩ | hg
+    · subst e'
+      rcases obsB_genPass x b u _ n ho with ⟨e'', hp'⟩ | hg'
+      · subst e''; exact Or.inl ⟨rfl, fun w' => ⟨k, w', hp w', hp' w'⟩⟩
+      · exact Or.inr fun w' => ⟨k, w', hp w', hg' w'⟩
+    · rcases obsB_genPass x b u _ n ho with ⟨e'', hp'⟩ | hg'
+      · subst e''; exact Or.inr fun w' => ⟨k, n, hg w', hp' n⟩
+      · exact Or.inr fun w' => ⟨k, m, hg w', hg' m⟩
+  | assign v d => simp [obsS] at h
+  | call => simp [obsS] at h
+  | brk j => simp [obsS] at h
+  | cont j => simp [obsS] at h
+  | ret => simp [obsS] at h
+  | raise => simp [obsS] at h
+  | with_ sup b => simp [obsS] at h
+  | try_ b hs e hf f => simp [obsS] at h
+
+theorem obsB_genPass (x : Nat) (b : Block) (u : Nat) : GenPass (fun w n => obsB x b w u n) := by
+  intro w n h
+  cases b with
+  | nil => simp [obsB] at h
+  | cons s r =>
+    simp only [obsB] at h ⊢
+    rcases h with h | ⟨m, h1, h2⟩
+    · rcases obsS_genPass x s u w n h with ⟨e, hp⟩ | hg
+      · exact Or.inl ⟨e, fun w' => Or.inl (hp w')⟩
+      · exact Or.inr fun w' => Or.inl (hg w')
+    · rcases runS_genPass x s false w m h1 with ⟨e, hp⟩ | hg
+      · subst e
+        rcases obsB_genPass x r u _ n h2 with ⟨e, hp'⟩ | hg'
+        · subst e; exact Or.inl ⟨rfl, fun w' => Or.inr ⟨w', hp w', hp' w'⟩⟩
+        · exact Or.inr fun w' => Or.inr ⟨w', hp w', hg' w'⟩
+      · rcases obsB_genPass x r u _ n h2 with ⟨e, hp'⟩ | hg'
+        · subst e; exact Or.inr fun w' => Or.inr ⟨n, hg w', hp' n⟩
+        · exact Or.inr fun w' => Or.inr ⟨m, hg w', hg' m⟩
+end
+
+theorem mem_reachingFrom {lib : Bool} {p : Block} {x u : Nat} {n : Node} {entry : List Node} :
+    n ∈ reachingFrom lib p x u entry ↔ (u, n) ∈ (flowBlock lib x p entry).uses := by
+  unfold reachingFrom
+  simp only [List.mem_map, List.mem_filter, decide_eq_true_eq]
+  constructor
+  · rintro ⟨⟨u', n'⟩, ⟨hm, hu⟩, hn⟩
+    simp only at hu hn; subst hu; subst hn; exact hm
+  · intro h; exact ⟨(u, n), ⟨h, rfl⟩, rfl⟩
+
+/-- every observation of a path started unbound is reported (simple fragment, distinct use ids) -/
+theorem sound_obs (p : Block) (hp : p.simple = true) (hn : p.useIds.Nodup) (x u : Nat) (n : Node)
+    (ho : obsB x p none u n) : n ∈ reported p x u := by
+  cases n with
+  | none =>
+    have := noneB x p hp hn {} rfl none cov_init u ho rfl
+    unfold Good at this
+    unfold reported collect
+    cases hl : lookup u (visitBlock true x p {}).u2d with
+    | none => simp
+    | some l => rw [hl] at this; simpa using this
+  | some d =>
+    obtain ⟨l, hl, hd⟩ := (simB x p hp {} rfl none cov_init).uses u d ho
+    unfold reported collect
+    rw [hl]; exact hd
+
+theorem mem_expandRef {d0 : Nat} {p : Block} {x : Nat} {ds : List Node} {n : Node} :
+    n ∈ expandRef d0 p x ds ↔ (none ∈ ds ∧ n ∈ ownerHolds d0 p x) ∨ (∃ d, n = some d ∧ some d ∈ ds) := by
+  unfold expandRef
+  simp only [List.mem_flatMap]
+  constructor
+  · rintro ⟨a, ha, hn⟩
+    cases a with
+    | none => exact Or.inl ⟨ha, hn⟩
+    | some d => simp only [List.mem_singleton] at hn; exact Or.inr ⟨d, hn, hn ▸ ha⟩
+  · rintro (⟨h1, h2⟩ | ⟨d, h1, h2⟩)
+    · exact ⟨none, h1, h2⟩
+    · exact ⟨some d, h2, by simp [h1]⟩
+
+/-- **`global` / `nonlocal` names.** Whatever reaches a use on a strict path when the function is entered with the
+outside binding `d0` current is reported (simple fragment): the model resolves `_UNINITIALIZED` through the owning
+scope, which holds `d0`. -/
+theorem sound_ref (p : Block) (hp : p.simple = true) (hn : p.useIds.Nodup) (x u d0 d : Nat)
+    (h : some d ∈ reachingFrom false p x u [some d0]) : some d ∈ expandRef d0 p x (reported p x u) := by
+  rw [mem_reachingFrom] at h
+  obtain ⟨w, hw, ho⟩ := (justB x p hp [some d0]).uses u (some d) h
+  simp only [List.mem_singleton] at hw; subst hw
+  rcases obsB_genPass x p u _ _ ho with ⟨e, hp'⟩ | hg
+  · have := sound_obs p hp hn x u none (hp' none)
+    rw [e]
+    exact mem_expandRef.2 (Or.inl ⟨this, by simp [ownerHolds]⟩)
+  · exact mem_expandRef.2 (Or.inr ⟨d, rfl, sound_obs p hp hn x u (some d) (hg none)⟩)
+
+/-- a parameter is an assignment in front of the body -/
+theorem reaching_param (p : Block) (x u d0 : Nat) (n : Node) :
+    n ∈ reachingFrom false p x u [some d0] ↔ n ∈ reaching false (.cons (.assign x d0) p) x u := by
+  rw [mem_reachingFrom, mem_reaching]
+  have : (flowBlock false x (.cons (.assign x d0) p) [none]).uses = (flowBlock false x p [some d0]).uses := by
+    rw [flowBlock]; simp [flowStmt]
+  rw [this]
+
 end Pya.C09
